@@ -171,6 +171,16 @@ def gen_cases(rng: Rng, tier):
         yield dict(kind="ufpca", method=method, normalize=bool((i // 2) % 2), score="NumInt" if method == "covariance" else "InnPro",
                    sel=["all"] if method == "covariance" else ["int", 1], ck=f"grid:{label}", dim=1, t=Svec(t), X=Smat(X),
                    a="1", b="-1/2", seed=rng.subseed())
+    # documented fit options away from their defaults (every run): fit(..., method_smoothing="LP"/"PS") — the mean (and,
+    # on the covariance route, the covariance) is smoothed; the stored-vs-explicit, round-trip, affine and history clauses use
+    # what the estimator REPORTS (est.mean, est.weights) as the reference; every scoring method
+    for i, (sm, method, score) in enumerate([("LP", "covariance", "NumInt"), ("PS", "covariance", "PACE"), ("PS", "covariance", "NumInt"),
+                                             ("LP", "inner-product", "NumInt"), ("PS", "inner-product", "PACE"), ("PS", "inner-product", "InnPro")]):
+        n, m = rng.randint(5, 7), rng.randint(8, 11)
+        t = grid(rng, m, uniform=bool(i % 2))
+        X, ck = curves(rng, n, t, rng.choice(["rough", "offset"]))
+        yield dict(kind="ufpca", method=method, normalize=bool(i % 3 == 2), score=score, sel=["int", 2], ck=f"fit-smoothing-{sm}", dim=1,
+                   t=Svec(t), X=Smat(X), a="1", b="-1/2", seed=rng.subseed(), fit_smooth=sm)
     # thresholds inside scoring (every run): PACE on smooth curves whose estimated noise variance lies on both sides of the
     # constants of the scoring code (an amplitude ladder 4^-k moves it from ~1e-1 down to ~1e-9, across tol = 1e-4), with
     # and without normalisation, default and user-supplied `tol`; stored vs explicitly passed training curves
@@ -469,7 +479,8 @@ def _run_ufpca(case, est=None, holder=None):
             est = UFPCA(method=case["method"], n_components=sel_to_py(case["sel"]), normalize=case["normalize"])
         if holder is not None:
             holder.append(est)
-        _, err = _try(lambda: est.fit(fd))
+        fitkw = dict(method_smoothing=case["fit_smooth"]) if case.get("fit_smooth") else {}
+        _, err = _try(lambda: est.fit(fd, **fitkw))
         if err:
             return dict(error=err)
         out.update(_state(est, case))
@@ -482,6 +493,19 @@ def _run_ufpca(case, est=None, holder=None):
         out["s_none"], out["s_none_err"] = (None if s_none is None else np.asarray(s_none, dtype=float).tolist()), e1
         s_train, e2 = _try(lambda: est.transform(_fd(case), method=score, method_smoothing=None))
         out["s_train"], out["s_train_err"] = (None if s_train is None else np.asarray(s_train, dtype=float).tolist()), e2
+        # --- inputs modified after the fit: the object given to fit is edited IN PLACE, then scored; it must be scored like a
+        #     fresh object with the same (edited) curves, and the stored training scores must not move
+        if score != "InnPro":
+            Xe = X * 0.5 + 1.0 + np.arange(X.shape[1]) / 16.0
+            fd.values[...] = Xe.reshape(np.asarray(fd.values).shape)
+            e_same, ee1 = _try(lambda: est.transform(fd, method=score, method_smoothing=None))
+            e_fresh, ee2 = _try(lambda: est.transform(_fd(case, Xe), method=score, method_smoothing=None))
+            out["edit_same"] = None if e_same is None else np.asarray(e_same, dtype=float).tolist()
+            out["edit_fresh"] = None if e_fresh is None else np.asarray(e_fresh, dtype=float).tolist()
+        else:
+            fd.values[...] = np.asarray(fd.values) * 0.5 + 1.0
+        e_none, _ = _try(lambda: est.transform(None, method=score))
+        out["edit_none"] = None if e_none is None else np.asarray(e_none, dtype=float).tolist()
         if "tol" in case and score == "PACE":
             tol = float(F(case["tol"]))
             a_, ea = _try(lambda: est.transform(None, method="PACE", tol=tol))
@@ -526,9 +550,9 @@ def _run_ufpca(case, est=None, holder=None):
             out["inv1_again"] = None if again is None else _flat(again.values)
         out["state_again"] = {k: v for k, v in _state(est, case).items() if k in ("vals", "weights", "mean", "phi", "cov", "noise")}
         X2 = X[::-1] * 0.5 + np.arange(X.shape[1]) / 8.0
-        _, e8 = _try(lambda: est.fit(_fd(case, X2)))
+        _, e8 = _try(lambda: est.fit(_fd(case, X2), **fitkw))
         fresh = UFPCA(method=case["method"], n_components=sel_to_py(case["sel"]), normalize=case["normalize"])
-        _, e9 = _try(lambda: fresh.fit(_fd(case, X2)))
+        _, e9 = _try(lambda: fresh.fit(_fd(case, X2), **fitkw))
         if not e8 and not e9:
             out["refit"] = _state(est, case)
             out["fresh"] = _state(fresh, case)
@@ -652,8 +676,9 @@ def _requests_one(case, impl):
                 wp = rs(F(impl["weights"][p])) if case["normalize"] else "1"
                 reqs.append((f"numint:{p}", f"tr1 {nz} spec {J(c['t'])} {_rv(impl['mean'][p])} {wp} {M(Xr)} {_rm(impl['phi'][p])}"))
         return reqs
-    reqs.append(("mean", f"mean {M(case['X'])}"))
-    if case["normalize"]:
+    if not case.get("fit_smooth"):
+        reqs.append(("mean", f"mean {M(case['X'])}"))     # a smoothed mean is the smoother's business (C05/C06)
+    if case["normalize"] and not case.get("fit_smooth"):
         if case["dim"] == 1:
             reqs.append(("weight", f"weight1 {J(case['t'])} {M(case['X'])}"))
         else:
@@ -867,7 +892,7 @@ def _oracle_one(case, impl):
         bad("innpro_rejects", f"unknown score method: expected ValueError, got {impl.get('bad_method_err')}")
     # --- Gram-based scores are (rescaled) projections on the eigenfunctions, component by component (also when other
     #     retained components are non-finite):  <z_i, phi_k>_w = s_ik (l_k + σ²)/l_k, l_k = n λ_k  (C02.gram_proj)
-    if case["method"] == "inner-product" and score == "InnPro" and K and S0 is not None:
+    if case["method"] == "inner-product" and score == "InnPro" and K and S0 is not None and not case.get("fit_smooth"):
         Z = (X - mean) / r
         lk = n * vals
         sig = impl["noise"]
@@ -882,6 +907,13 @@ def _oracle_one(case, impl):
     if S0 is None or not finite or not np.all(np.isfinite(S0)):
         return vs  # non-finite eigenfunctions (Gram route, clipped eigenvalue) are C02's finding
     # --- natural scores are uncorrelated with variance λ
+    natural_rt = natural
+    if case.get("fit_smooth") and natural and case["method"] == "covariance" and K and finite:
+        Gs = (Phi * w) @ Phi.T
+        natural_rt = bool(np.abs(Gs - np.eye(K)).max() < 1e-8)   # round trip still applies when the eigenfunctions are orthonormal
+    elif case.get("fit_smooth"):
+        natural_rt = False
+    natural = natural and not case.get("fit_smooth")   # with a smoothed mean / covariance the decomposed object is the smoother's
     if natural and K:
         if case["method"] == "covariance":
             Cs = S0.T @ S0 / (n - 1)
@@ -915,6 +947,14 @@ def _oracle_one(case, impl):
                         causes.append(UNCENTRED)
                 k = int(np.abs(S1 - S0).max(axis=0).argmax())
                 bad("transform_training", f"transform(training data) differs from transform(None) by {np.abs(S1 - S0).max():.3g} (component {k}, normalize={case['normalize']}, score {score}, estimated noise variance {impl['noise']!r})", causes)
+    # --- inputs modified after the fit
+    if impl.get("edit_same") is not None and impl.get("edit_fresh") is not None:
+        A_, B_ = np.array(impl["edit_same"], dtype=float), np.array(impl["edit_fresh"], dtype=float)
+        if A_.shape != B_.shape or not np.array_equal(A_, B_, equal_nan=True):
+            bad("input_edited", f"the object given to fit was edited in place afterwards: transform(that object, {score}) differs from transform(a fresh object with the same curves) by {np.nanmax(np.abs(A_ - B_)) if A_.shape == B_.shape else 'shape'}")
+    if impl.get("edit_none") is not None and impl.get("s_none") is not None:
+        if not np.array_equal(np.array(impl["edit_none"], dtype=float), np.array(impl["s_none"], dtype=float), equal_nan=True):
+            bad("input_edited", f"editing in place the object that had been given to fit changed transform(None, {score})")
     # --- the same with a user-supplied `tol` (PACE)
     if impl.get("s_none_tol") is not None and impl.get("s_train_tol") is not None and not case["normalize"]:
         A_, B_ = np.array(impl["s_none_tol"], dtype=float), np.array(impl["s_train_tol"], dtype=float)
@@ -923,7 +963,7 @@ def _oracle_one(case, impl):
             if A_.shape != B_.shape or np.abs(A_ - B_).max() > 1e-8 * sct:
                 bad("transform_training", f"PACE with tol={case['tol']}: transform(training data) differs from transform(None) by {np.abs(A_ - B_).max():.3g} (scores up to {sct:.3g}; estimated noise variance {impl['noise']!r})")
     # --- round trip for the natural scores when the retained components span the centred data
-    if natural and impl.get("rec") is not None and K:
+    if natural_rt and impl.get("rec") is not None and K:
         Z = (X - mean) / r
         Zn = max(np.abs(Z).max(), 1e-300)
         coef, *_ = np.linalg.lstsq(Phi.T, Z.T, rcond=None)
